@@ -105,7 +105,7 @@ def read_interactions(path, comments="#", directed=False, delimiter=None,
     ids = None
     lines = (line.decode(encoding) for line in path)
     if keys:
-        ids = read_ids(path.name, delimiter=delimiter, timestamptype=timestamptype)
+        ids = read_ids(path.name, delimiter=delimiter, timestamptype=timestamptype, comments=comments, ops=True)
 
     return parse_interactions(lines, comments=comments, directed=directed, delimiter=delimiter, nodetype=nodetype,
                               timestamptype=timestamptype, keys=ids)
@@ -290,23 +290,41 @@ def read_snapshots(path, comments="#", directed=False, delimiter=None,
     ids = None
     lines = (line.decode(encoding) for line in path)
     if keys:
-        ids = read_ids(path.name, delimiter=delimiter, timestamptype=timestamptype)
+        ids = read_ids(path.name, delimiter=delimiter, timestamptype=timestamptype, comments=comments)
 
     return parse_snapshots(lines, comments=comments, directed=directed, delimiter=delimiter, nodetype=nodetype,
                            timestamptype=timestamptype, keys=ids)
 
 
-def read_ids(path, delimiter=None, timestamptype=None):
+def read_ids(path, delimiter=None, timestamptype=None, comments='#', ops=False):
+    """Collect the timestamps used by the rows the parsers will accept and rank them.
+
+    ops=False: snapshot rows 'u v t [e]' (at least 3 fields); ops=True: interaction rows 'u v op t' (exactly 4 fields).
+    """
     f = open(path)
     ids = {}
     for line in f:
-        s = line.rstrip().split(delimiter)
-        ids[timestamptype(s[-1])] = None
-        if len(line) == 4:
-            if s[-2] not in ['+', '-']:
-                ids[timestamptype(s[-2])] = None
+        p = line.find(comments)
+        if p >= 0:
+            line = line[:p]
+        s = line.strip().split(delimiter)
+        if ops:
+            if len(s) != 4:
+                continue
+            stamps = [s[3]]
+        else:
+            if len(s) < 3:
+                continue
+            stamps = s[2:4]
 
-    f.flush()
+        for stamp in stamps:
+            if timestamptype is not None:
+                try:
+                    stamp = timestamptype(stamp)
+                except:
+                    raise TypeError("Failed to convert timestamp %s to type %s." % (stamp, timestamptype))
+            ids[stamp] = None
+
     f.close()
 
     ids = compact_timeslot(ids.keys())
